@@ -980,6 +980,16 @@ func (env *SpecEnv) call(x *SExpr) SV {
 	case "sel": // raw SMT select on array-sorted state
 		a := argv(0)
 		return SV{t: fmt.Sprintf("(select %s %s)", a.t, argv(1).t), sort: arrayRange(a.sort)}
+	case "global": // global(name): the package-level variable of the function's own package, in the current (or old) state
+		if len(x.Args) == 1 && x.Args[0].Op == "id" && env.e.r.fn != nil && env.e.r.fn.Pkg != nil {
+			if g, ok := env.e.r.fn.Pkg.Members[x.Args[0].S].(*ssa.Global); ok {
+				name := "glob:" + g.Pkg.Pkg.Path() + "." + g.Name()
+				el := g.Type().(*types.Pointer).Elem()
+				env.e.ensureState(name, g2sort(env, el))
+				return SV{t: env.state(name), sort: env.e.g().SortOf(el), gt: el}
+			}
+			env.fail("global: no package-level variable %q", x.Args[0].S)
+		}
 	case "heap": // heap(TypeName)[ref]
 		if len(x.Args) == 1 && x.Args[0].Op == "id" {
 			_, gt := env.namedSort(x.Args[0].S)
@@ -1074,3 +1084,5 @@ func declStr2Bytes(g *Gen, bs string) {
 	g.DeclFun("bytes2str", []string{bs}, "Str")
 	g.Axiom("str2bytes.roundtrip", fmt.Sprintf("(forall ((s Str)) (! (and (= (bytes2str (str2bytes s)) s) (not (%s_nil (str2bytes s))) (= (%s_len (str2bytes s)) (strlen s))) :pattern ((str2bytes s))))", bs, bs))
 }
+
+func g2sort(env *SpecEnv, t types.Type) string { return env.e.g().SortOf(t) }
